@@ -43,3 +43,25 @@ Proof. unfold slice, zlen. rewrite Z.sub_0_r, Nat2Z.id. cbn [Z.to_nat skipn]. ap
 
 Lemma slice_0 (buf : bytes) n : slice buf 0 n = firstn (Z.to_nat n) buf.
 Proof. unfold slice. rewrite Z.sub_0_r. reflexivity. Qed.
+
+(* a slice inside the first n bytes does not see what follows them *)
+Lemma slice_firstn_app (buf s : bytes) a b n : 0 <= a <= b -> b <= n -> n <= zlen buf ->
+  slice (firstn (Z.to_nat n) buf ++ s) a b = slice buf a b.
+Proof.
+  intros H1 H2 H3. unfold slice.
+  assert (L : length (firstn (Z.to_nat n) buf) = Z.to_nat n) by (rewrite firstn_length; unfold zlen in H3; lia).
+  rewrite skipn_app. rewrite L. replace (Z.to_nat a - Z.to_nat n)%nat with 0%nat by lia. cbn [skipn].
+  rewrite firstn_app. rewrite skipn_length, L.
+  replace (Z.to_nat (b - a) - (Z.to_nat n - Z.to_nat a))%nat with 0%nat by lia. cbn [firstn]. rewrite app_nil_r.
+  rewrite skipn_firstn_comm. rewrite firstn_firstn. f_equal. lia.
+Qed.
+
+Lemma firstn_firstn_le {A} (buf : list A) a b : (a <= b)%nat -> firstn a (firstn b buf) = firstn a buf.
+Proof. intros L. rewrite firstn_firstn. f_equal. lia. Qed.
+
+Lemma firstn_firstn_app {A} (buf s : list A) a n : (a <= n)%nat -> (n <= length buf)%nat ->
+  firstn a (firstn n buf ++ s) = firstn a buf.
+Proof.
+  intros H1 H2. rewrite firstn_app. rewrite firstn_length. replace (a - Nat.min n (length buf))%nat with 0%nat by lia.
+  cbn [firstn]. rewrite app_nil_r. apply firstn_firstn_le. exact H1.
+Qed.
